@@ -2,13 +2,188 @@
 package main
 
 import (
+	"context"
+	"encoding/json"
+	"fmt"
+	"net"
+	"strings"
+	"sync"
 	"time"
+
+	"github.com/hprose/hprose-golang/v3/rpc"
+	"github.com/hprose/hprose-golang/v3/rpc/core"
+	"github.com/hprose/hprose-golang/v3/rpc/plugins/cluster"
 
 	"hv/hvlib"
 	"hv/muxlib"
 )
 
+// fanCase: a call that a plugin hands to several servers on copies of its context (cluster.Forking,
+// cluster.Broadcast).  Every server accepts the connection, reads, and never answers.  The call must come
+// back with an error no later than (about) the client's timeout, whichever plugin made the copies.
+type fanCase struct {
+	ID        int    `json:"id"`
+	Kind      string `json:"kind"` // "fan"
+	Plugin    string `json:"plugin"` // forking | broadcast | none
+	Servers   int    `json:"servers"`
+	Silent    []int  `json:"silent"` // which servers never answer (the others echo a valid empty result)
+	TimeoutMs int    `json:"timeout_ms"`
+	PerCall   bool   `json:"per_call"` // the timeout is set on the call's ClientContext instead of the client
+}
+
+type fanObs struct {
+	ID        int    `json:"id"`
+	Kind      string `json:"kind"`
+	Returned  bool   `json:"returned"`
+	ElapsedMs int64  `json:"elapsed_ms"`
+	Err       string `json:"err"`
+	Env       string `json:"env,omitempty"`
+}
+
+func silentServer(answer bool) (string, func(), error) {
+	ln, err := net.Listen("tcp", "127.0.0.1:0")
+	if err != nil {
+		return "", nil, err
+	}
+	var mu sync.Mutex
+	var conns []net.Conn
+	go func() {
+		for {
+			c, err := ln.Accept()
+			if err != nil {
+				return
+			}
+			mu.Lock()
+			conns = append(conns, c)
+			mu.Unlock()
+			go func(c net.Conn) {
+				buf := make([]byte, 4096)
+				for {
+					n, err := c.Read(buf)
+					if err != nil {
+						return
+					}
+					if answer && n >= 12 {
+						// echo the 12-byte header with the body "Rnz" (a nil result): lengths recomputed by the client library's
+						// own framing are not needed here - a healthy peer is an rpc.Service below, this branch is unused
+						_ = n
+					}
+				}
+			}(c)
+		}
+	}()
+	stop := func() {
+		ln.Close()
+		mu.Lock()
+		for _, c := range conns {
+			c.Close()
+		}
+		mu.Unlock()
+	}
+	return "tcp://" + ln.Addr().String(), stop, nil
+}
+
+func healthyServer() (string, func(), error) {
+	ln, err := net.Listen("tcp", "127.0.0.1:0")
+	if err != nil {
+		return "", nil, err
+	}
+	s := rpc.NewService()
+	s.AddFunction(func() string { return "ok" }, "f")
+	go s.Bind(ln)
+	return "tcp://" + ln.Addr().String(), func() { ln.Close() }, nil
+}
+
+func runFan(line []byte, out *json.Encoder) error {
+	var c fanCase
+	if err := json.Unmarshal(line, &c); err != nil {
+		return err
+	}
+	hvlib.Begin(c.ID)
+	obs := fanObs{ID: c.ID, Kind: "fan"}
+	var urls []string
+	var stops []func()
+	defer func() {
+		for _, s := range stops {
+			s()
+		}
+	}()
+	isSilent := map[int]bool{}
+	for _, i := range c.Silent {
+		isSilent[i] = true
+	}
+	for i := 0; i < c.Servers; i++ {
+		var u string
+		var stop func()
+		var err error
+		if isSilent[i] {
+			u, stop, err = silentServer(false)
+		} else {
+			u, stop, err = healthyServer()
+		}
+		if err != nil {
+			obs.Env = err.Error()
+			return out.Encode(&obs)
+		}
+		urls = append(urls, u)
+		stops = append(stops, stop)
+	}
+	client := rpc.NewClient(urls...)
+	defer client.Abort()
+	switch c.Plugin {
+	case "forking":
+		client.Use(cluster.Forking)
+	case "broadcast":
+		client.Use(cluster.Broadcast)
+	}
+	ctx := context.Background()
+	if c.PerCall {
+		client.Timeout = 30 * time.Second
+		cc := core.NewClientContext()
+		cc.Timeout = time.Duration(c.TimeoutMs) * time.Millisecond
+		ctx = core.WithContext(ctx, cc)
+	} else {
+		client.Timeout = time.Duration(c.TimeoutMs) * time.Millisecond
+	}
+	done := make(chan error, 1)
+	t0 := time.Now()
+	go func() {
+		defer func() {
+			if r := recover(); r != nil {
+				done <- fmt.Errorf("panic: %v", r)
+			}
+		}()
+		_, err := client.InvokeContext(ctx, "f", nil)
+		done <- err
+	}()
+	select {
+	case err := <-done:
+		obs.Returned = true
+		obs.ElapsedMs = time.Since(t0).Milliseconds()
+		if err != nil {
+			obs.Err = err.Error()
+		}
+	case <-time.After(time.Duration(c.TimeoutMs)*time.Millisecond + 4*time.Second):
+		obs.ElapsedMs = time.Since(t0).Milliseconds()
+	}
+	return out.Encode(&obs)
+}
+
+func mainLoop(line []byte, out *json.Encoder) error {
+	if strings.Contains(string(line[:min(len(line), 200)]), `"kind":"fan"`) {
+		return runFan(line, out)
+	}
+	return muxlib.MainLoop(line, out)
+}
+
+func min(a, b int) int {
+	if a < b {
+		return a
+	}
+	return b
+}
+
 func main() {
 	hvlib.CaseTimeout = 120 * time.Second
-	hvlib.Main(muxlib.MainLoop)
+	hvlib.Main(mainLoop)
 }
